@@ -3,10 +3,15 @@ C04 — Buffers and builders keep objects intact across growth, commit, rollback
 
 Property theorems about the model `Osmium.Buf` (lean/Osmium/Model/Buf.lean, Layout.lean); helper
 lemmas live in Osmium/Lemmas/{Buf,BufSim,BufPurge,BufLaws}.lean.  `run s ops` executes a script; `St.init`
-creates buf0 = Buffer(c0, m0) and the auxiliary buf1 = Buffer(c1, m1).  `fixF4 = false` is the
-CURRENT code (ChangesetDiscussionBuilder::m_comment is a raw pointer), `true` the repaired one.
+creates buf0 = Buffer(c0, m0) and the auxiliary buf1 = Buffer(c1, m1).  `fixF4 = true` is the
+CURRENT code (ChangesetDiscussionBuilder keeps the pending comment as an offset — /repo d30efa2 — and
+its destructor finishes a pending comment — /repo 5690f83); `fixF4 = false` is the original code
+(m_comment is a raw pointer, finding F4).  tools/props/c04.py determines on every run which of the
+two the source in /repo is and runs the correspondence check against that variant.
 -/
-import Osmium.Lemmas.BufLaws
+import Osmium.Lemmas.BufBridgeSeq
+import Osmium.Lemmas.BufFieldLaws
+import Osmium.Lemmas.BufBuildFields
 
 namespace Osmium.Buf.C04
 
@@ -25,27 +30,327 @@ theorem buf_inv_bounds (ops : List Op) (c0 c1 : Nat) (m0 m1 : Mode) (fill : UInt
 /-- The invariant is inductive: one operation from any state satisfying it. -/
 theorem buf_inv_step (s : St) (op : Op) (h : s.Bounds) : (step s op).1.Bounds := step_bounds s op h
 
-/-- Alignment clause of buf_inv (8 ∣ committed, and 8 ∣ written when no builder is open) — PARTIAL:
-    it holds initially and every operation of the Buffer class itself (commit, rollback, clear,
-    add_buffer, push_back, swap, move, set_removed, purge_removed, get_last_nested) preserves it, for
-    both buffers, in every grow mode (including a throwing add_buffer/push_back in mode `no`).
-    MISSING for the full clause: "a completed top-level builder leaves `written` aligned", which
-    needs the byte-level invariant that every open builder's size field is congruent mod 8 to the
-    extent actually written (add_padding pads by the size FIELD); that part is covered by the
-    `buf-inv` and `item-walk` monitors of the check on every op of every run, not by a theorem. -/
-theorem buf_inv_aligned_partial (s : St) (op : Op) (hop : BufferOp op = true) (he : s.stack = [])
-    (hs : s.Bounds) (h0 : s.b0.Aligned) (h1 : s.b1.Aligned) :
-    (step s op).1.b0.Aligned ∧ (step s op).1.b1.Aligned := step_aligned_bufferop s op hop he hs h0 h1
+/-- Alignment clause of buf_inv, FULL: in EVERY reachable state — all scripts (builder calls, nested
+    sub-builders, buffer operations, in any order, including calls that end in buffer_is_full and
+    unwind the open builders), all initial capacities, all grow modes, both variants, both buffers —
+    `committed` and the capacities are multiples of 8, the auxiliary buffer's `written` is, and
+    `written` of buf0 is whenever no builder is open.  (No hypothesis about undefined-behaviour
+    outcomes is needed: a run that died keeps the invariant of the state it died in.) -/
+theorem buf_inv_aligned (ops : List Op) (c0 c1 : Nat) (m0 m1 : Mode) (fill : UInt8) (fix : Bool) :
+    let s := run (St.init c0 m0 c1 m1 fill fix) ops
+    s.b0.committed % 8 = 0 ∧ s.b0.cap % 8 = 0 ∧ (s.stack = [] → s.b0.written % 8 = 0) ∧
+    s.b1.committed % 8 = 0 ∧ s.b1.written % 8 = 0 ∧ s.b1.cap % 8 = 0 := by
+  intro s
+  have hA : AInv s := (run_ainv ops _ (ainv_init c0 c1 m0 m1 fill fix) (by simp [St.init])).1
+  refine ⟨hA.c0, hA.cap0, fun hst => ?_, hA.a1.1, hA.a1.2, hA.cap1⟩
+  exact ((ainv_nil_iff s hst).1 hA).2.1.2
+
+/-- The byte-level invariant behind it, in every reachable state: every open LIST builder's size
+    field is congruent (mod 8) to the number of bytes written since its item started — `add_padding`
+    pads by the size FIELD —, item offsets are multiples of 8, and an open object builder with all
+    its sub-builders closed ends on an 8-byte boundary. -/
+theorem open_builders_sizes_congruent (ops : List Op) (c0 c1 : Nat) (m0 m1 : Mode) (fill : UInt8) (fix : Bool) :
+    let s := run (St.init c0 m0 c1 m1 fill fix) ops
+    (∀ f ∈ s.stack, f.off % 8 = 0 ∧ f.off + 8 ≤ s.b0.pend.length ∧
+      (f.kind.isObj = false → u32At s.b0.pend f.off % 8 = (s.b0.pend.length - f.off) % 8)) ∧
+    (∀ f r, s.stack = f :: r → f.kind.isObj = true → s.b0.pend.length % 8 = 0) := by
+  intro s
+  have hA : AInv s := (run_ainv ops _ (ainv_init c0 c1 m0 m1 fill fix) (by simp [St.init])).1
+  refine ⟨?_, fun f r hst hk => ?_⟩
+  · have key : ∀ (st : List Frame) (ub : Nat), FramesOK s.b0.pend ub st → ub ≤ s.b0.pend.length →
+        ∀ f ∈ st, f.off % 8 = 0 ∧ f.off + 8 ≤ s.b0.pend.length ∧
+          (f.kind.isObj = false → u32At s.b0.pend f.off % 8 = (s.b0.pend.length - f.off) % 8) := by
+      intro st
+      induction st with
+      | nil => intro _ _ _ f hf; cases hf
+      | cons g rest ih =>
+        intro ub h hub f hf
+        rcases List.mem_cons.1 hf with rfl | hf'
+        · exact ⟨h.1, by have := h.2.1; omega, h.2.2.2.1⟩
+        · exact ih g.off h.2.2.2.2.2 (by have := h.2.1; omega) f hf'
+    exact key s.stack _ hA.pinv.1 (Nat.le_refl _)
+  · have := hA.pinv.2
+    rw [hst] at this
+    exact this hk
+
+/-- The invariant is inductive: one operation from ANY state satisfying it (not only reachable ones). -/
+theorem buf_inv_aligned_step (s : St) (op : Op) (h : AInv s) : AInv (step s op).1 := (step_ainv s op h).1
+
+/-- Consequence: a builder destructor never throws.  The padding a destructor appends always fits
+    (capacity and item start are multiples of 8, size ≡ extent), and the repair of a pending
+    discussion comment swallows its own buffer_is_full — so `std::terminate` (status `terminate`, a
+    run that died with `full`) is unreachable: all scripts, capacities, modes (also `auto_grow::no`
+    with buffer_is_full thrown at any call and all open builders unwinding). -/
+theorem destructors_never_throw (ops : List Op) (c0 c1 : Nat) (m0 m1 : Mode) (fill : UInt8) (fix : Bool) :
+    (run (St.init c0 m0 c1 m1 fill fix) ops).dead ≠ some .full ∧
+    ∀ op, (step (run (St.init c0 m0 c1 m1 fill fix) ops) op).2.1 ≠ .terminate := by
+  have h := run_ainv ops _ (ainv_init c0 c1 m0 m1 fill fix) (by simp [St.init])
+  exact ⟨h.2, fun op => ((step_ainv _ op h.1).2 h.2).1⟩
+
+/-- The outcome `misaligned` (`assert(buffer.is_aligned())` in the Builder constructor and in
+    reserve_space_for — an assertion of the real code too) arises in exactly one situation: a
+    sub-builder is constructed, or a node ref / relation member / comment struct is reserved, inside
+    an open LIST builder whose content so far is not a multiple of 8 bytes long (e.g. a second
+    TagListBuilder inside a TagListBuilder after a 4-byte tag).  Never at top level, never directly
+    inside an object builder. -/
+theorem misaligned_only_inside_unaligned_list (ops : List Op) (op : Op) (c0 c1 : Nat) (m0 m1 : Mode) (fill : UInt8) (fix : Bool)
+    (hd : (run (St.init c0 m0 c1 m1 fill fix) ops).dead ≠ some .misaligned)
+    (h : (step (run (St.init c0 m0 c1 m1 fill fix) ops) op).1.dead = some .misaligned) :
+    let s := run (St.init c0 m0 c1 m1 fill fix) ops
+    s.b0.pend.length % 8 ≠ 0 ∧ ∃ f r, s.stack = f :: r ∧ f.kind.isObj = false := by
+  intro s
+  have hA : AInv s := (run_ainv ops _ (ainv_init c0 c1 m0 m1 fill fix) (by simp [St.init])).1
+  rcases step_misaligned s op h with h1 | h1
+  · exact absurd h1 hd
+  · refine ⟨h1, ?_⟩
+    have ht := hA.pinv.2
+    cases hst : s.stack with
+    | nil => rw [hst] at ht; exact absurd ht h1
+    | cons f r =>
+      rw [hst] at ht
+      refine ⟨f, r, rfl, ?_⟩
+      cases hk : f.kind.isObj with
+      | false => rfl
+      | true => exact absurd (ht hk) h1
+
+/-- non-vacuity: such a script exists (the outcome is reachable), and the same calls with an 8-byte
+    tag are fine -/
+example : (run (St.init 64 .yes 64 .yes 190 true) [.open .taglist, .tag [97] [98], .open .taglist]).dead = some .misaligned ∧
+    (run (St.init 64 .yes 64 .yes 190 true) [.open .taglist, .tag [97, 98, 99] [100, 101, 102], .open .taglist]).dead = none := by
+  decide +kernel
+
+/-- non-vacuity of the quantifier "also when a call ends in buffer_is_full": mode `no`, capacity 96,
+    a comment whose user name does not fit — add_comment throws with the comment pending, the two
+    builders unwind (the discussion destructor repairs the comment), the state stays aligned and alive -/
+example :
+    let s := run (St.init 96 .no 64 .yes 190 true) [.open .changeset, .open .disc, .comment 7 8 (List.replicate 200 117)]
+    s.dead = none ∧ s.stack = [] ∧ s.b0.written = 96 ∧ s.b0.committed = 0 := by decide +kernel
 
 theorem buf_inv_aligned_init (c0 c1 : Nat) (m0 m1 : Mode) (fill : UInt8) (fix : Bool) :
     (St.init c0 m0 c1 m1 fill fix).b0.Aligned ∧ (St.init c0 m0 c1 m1 fill fix).b1.Aligned :=
   ⟨aligned_mk _ _ _, aligned_mk _ _ _⟩
 
+/-! ### built_content — what the builder calls leave in the buffer
+
+`HostileLayout.ObjS` describes one object by its builder calls: kind, user name, and per sub-builder
+block its tags / node refs / members with roles / discussion comments (with or without text);
+`HostileLayout.script o` is that call sequence (constructor, set_user, per block: sub-builder
+constructor, add_xxx calls, destructor; destructor; commit), `HostileLayout.build fill o` the byte
+string an obviously-correct layout function assigns to it (header with the total size, fixed part,
+user name, zero padding, per block: header with the unpadded size, body, zero padding), and
+`HostileLayout.subTree` / `builders_traverse_complete` (C03) the tree it decodes to. -/
+
+open Osmium.HostileLayout in
+/-- `SubOK` (the only restriction on the calls): node-list blocks use one of the three node-list
+    builders, and inside a discussion block every `add_comment` but the last is followed by
+    `add_comment_text` (the destructor finishes the last one; a text-less comment in the middle makes
+    the next `add_comment` start at an unaligned address — the library's own `assert(is_aligned())`). -/
+theorem built_bytes (o : ObjS) (hf : o.fixed = ctorFixed o.kind) (hs : ∀ s ∈ o.subs, SubOK s)
+    (c c1 : Nat) (m m1 : Mode) (hm : m ≠ .no) (fill : UInt8) :
+    let s := run (St.init c m c1 m1 fill true) (script o)
+    s.dead = none ∧ s.stack = [] ∧ s.b0.pend = [] ∧ s.b0.done = build fill o := by
+  intro s
+  have h := run_script (St.init c m c1 m1 fill true) ⟨hm, rfl, ⟨bounds_mk _ _ _, bounds_mk _ _ _⟩⟩ rfl rfl rfl rfl o hf hs
+  obtain ⟨_, h2, _, h4, h5, _, _, h8⟩ := h
+  refine ⟨h2, h4, h5, ?_⟩
+  rw [h8]
+  simp [St.init, Buf.mk', Buf.done, Buf.comm]
+
+open Osmium.HostileLayout in
+/-- … for any number of objects built one after the other, every initial capacity, both auto-grow
+    modes (so: wherever the memory has to grow or move): the committed bytes are exactly the objects'
+    layouts one after the other. -/
+theorem built_bytes_sequence (os : List ObjS) (hf : ∀ o ∈ os, o.fixed = ctorFixed o.kind)
+    (hs : ∀ o ∈ os, ∀ s ∈ o.subs, SubOK s) (c c1 : Nat) (m m1 : Mode) (hm : m ≠ .no) (fill : UInt8) :
+    let s := run (St.init c m c1 m1 fill true) (os.map script).flatten
+    s.dead = none ∧ s.b0.pend = [] ∧ s.b0.done = (os.map (build fill)).flatten := by
+  intro s
+  have h := run_scripts os hf hs (St.init c m c1 m1 fill true) ⟨hm, rfl, ⟨bounds_mk _ _ _, bounds_mk _ _ _⟩⟩ rfl rfl rfl rfl
+  refine ⟨h.1, h.2.1, ?_⟩
+  rw [h.2.2]
+  simp [St.init, Buf.mk', Buf.done, Buf.comm]
+
+open Osmium.HostileLayout in
+theorem subOK_of_guards {fill : UInt8} {o : ObjS} (g : Guards fill o) : ∀ s ∈ o.subs, SubOK s := by
+  intro s hs
+  have he := g.extra s hs
+  cases s with
+  | tags kvs => trivial
+  | members ms => trivial
+  | nodes t ns =>
+    simp only [SubS.extraOk, Bool.or_eq_true, beq_iff_eq] at he
+    rcases he with (h | h) | h
+    · exact Or.inl h
+    · exact Or.inr (Or.inl h)
+    · exact Or.inr (Or.inr h)
+  | discussion cs =>
+    simp only [SubS.extraOk] at he
+    show lastPendingOnly cs = true
+    have key : ∀ (cs : List CommentS),
+        ((finishLast cs).all fun c => noNul c.user && (match c.text with | some t => noNul t | none => false)) = true →
+        lastPendingOnly cs = true := by
+      intro cs
+      induction cs with
+      | nil => intro _; rfl
+      | cons c r ih =>
+        cases r with
+        | nil => intro _; rfl
+        | cons d r' =>
+          intro h
+          simp only [finishLast, List.all_cons, Bool.and_eq_true] at h
+          simp only [lastPendingOnly, Bool.and_eq_true]
+          refine ⟨?_, ih (by simpa [List.all_cons] using h.2)⟩
+          cases ht : c.text with
+          | none => rw [ht] at h; simp at h
+          | some t => rfl
+    exact key cs he
+
+open Osmium.HostileLayout in
+/-- built_content: for every object description that satisfies `Guards` (the builders' own length
+    checks, NUL-free strings, item < 4 GiB — see Props/C03Layout.lean for why each is needed), every
+    initial capacity and both auto-grow modes, the builder calls run without dying and the committed
+    item sequence (`view` = what every traversal of the library reads) is exactly ONE item with the
+    kind, the user name and, block by block, the tags / node refs / members with roles / comments with
+    user and text that were passed in; the committed region is well-formed (`Layout.WF`: every read in
+    bounds, length a multiple of 8). -/
+theorem built_content (o : ObjS) (fill : UInt8) (g : Guards fill o) (hf : o.fixed = ctorFixed o.kind)
+    (c c1 : Nat) (m m1 : Mode) (hm : m ≠ .no) :
+    let s := run (St.init c m c1 m1 fill true) (script o)
+    s.dead = none ∧ Layout.WF s.b0.done = true ∧
+    ∃ fields, view s.b0 = .ok [.mk o.kind.ty false fields [o.user] (o.subs.map subTree)] := by
+  intro s
+  obtain ⟨h1, _, _, h4⟩ := built_bytes o hf (subOK_of_guards g) c c1 m m1 hm fill
+  refine ⟨h1, ?_, ?_⟩
+  · show Layout.WF s.b0.done = true
+    rw [h4]
+    obtain ⟨fields, hd⟩ := decodeAll_build fill o g
+    unfold Layout.WF
+    rw [hd]
+    simpa using build_length_mod fill o g
+  · unfold view
+    show ∃ fields, decodeAll s.b0.done = _
+    rw [h4]
+    exact decodeAll_build fill o g
+
+open Osmium.HostileLayout in
+/-- built_content for item SEQUENCES: any number of objects built and committed one after the other
+    (each under `Guards`), any initial capacity, both auto-grow modes: the run does not die, the
+    committed region is well-formed, and the view is, item by item (`TreesOf`: same length, i-th tree
+    = kind / user / blocks of the i-th description), what was passed in. -/
+theorem built_content_sequence (os : List ObjS) (fill : UInt8) (hg : ∀ o ∈ os, Guards fill o)
+    (hf : ∀ o ∈ os, o.fixed = ctorFixed o.kind) (c c1 : Nat) (m m1 : Mode) (hm : m ≠ .no) :
+    let s := run (St.init c m c1 m1 fill true) (os.map script).flatten
+    s.dead = none ∧ Layout.WF s.b0.done = true ∧ ∃ trees, view s.b0 = .ok trees ∧ TreesOf os trees := by
+  intro s
+  obtain ⟨h1, _, h3⟩ := built_bytes_sequence os hf (fun o ho => subOK_of_guards (hg o ho)) c c1 m m1 hm fill
+  obtain ⟨trees, hd, ht⟩ := decodeAll_builds fill os hg
+  refine ⟨h1, ?_, trees, ?_, ht⟩
+  · show Layout.WF s.b0.done = true
+    rw [h3]
+    unfold Layout.WF
+    rw [hd]
+    simpa using builds_length_mod fill os hg
+  · unfold view
+    show decodeAll s.b0.done = _
+    rw [h3]; exact hd
+
+open Osmium.HostileLayout in
+/-- non-vacuity: a changeset with a user name, a discussion (one complete comment, one pending at
+    destruction) and a tag list satisfies all hypotheses; at capacity 64 the buffer grows three
+    times while it is built -/
+example :
+    let o : ObjS := { kind := .changeset, fixed := ctorFixed .changeset, user := [98, 111, 98],
+                      subs := [.discussion [⟨7, 8, [97], some [104, 105]⟩, ⟨9, 10, [], none⟩], .tags [([107], [118])]] }
+    Guards 190 o ∧ o.fixed = ctorFixed o.kind ∧
+    (run (St.init 64 .internal 64 .yes 190 true) (script o)).b0.done = build 190 o ∧
+    (build 190 o).length = 136 := by decide +kernel
+
+/-! ### the fixed fields: `set_xxx` -/
+
+/-- A field setter of an object builder (`set_id`, `set_uid`, `set_timestamp`, `set_changeset`,
+    `set_location`, the changeset's fields: a `w`-byte field at offset `fo` of the item) writes the
+    two's-complement encoding of `v` into exactly these `w` bytes; all other uncommitted bytes, the
+    committed data, the builder stack and the other buffer are untouched; it cannot fail — in any
+    state, any grow mode, any capacity. -/
+theorem set_field_writes_exactly_the_field (s : St) (f : Frame) (rest : List Frame) (fo w : Nat) (v : Int)
+    (hd : s.dead = none) (hv : s.b0.valid = true) (hb : s.Bounds) (hst : s.stack = f :: rest) (hk : f.kind.isObj = true)
+    (hin : f.off + fo + w ≤ s.b0.pend.length) :
+    let s' := (step s (.setField fo w v)).1
+    (step s (.setField fo w v)).2.1 = .ok ∧ s'.b0.done = s.b0.done ∧ s'.stack = s.stack ∧ s'.b1 = s.b1 ∧
+    s'.b0.pend.length = s.b0.pend.length ∧
+    leAt s'.b0.pend (f.off + fo) w = (v % (256 ^ w : Nat)).toNat % 256 ^ w ∧
+    (∀ j, (j < f.off + fo ∨ f.off + fo + w ≤ j) → s'.b0.pend[j]? = s.b0.pend[j]?) := by
+  intro s'
+  obtain ⟨h1, h2, h3, h4, _, h6⟩ := setField_law s f rest fo w v hd hv hb.1.1 hst hk
+  refine ⟨h1, h3, h4, h6, ?_, ?_, ?_⟩
+  · show (step s (.setField fo w v)).1.b0.pend.length = _
+    rw [h2]; simp
+  · show leAt (step s (.setField fo w v)).1.b0.pend _ _ = _
+    rw [h2]; exact field_read_back _ _ _ _ hin
+  · intro j hj
+    show (step s (.setField fo w v)).1.b0.pend[j]? = _
+    rw [h2]
+    exact writeAt_getElem?_out _ _ _ _ (by rw [leBytesInt_len]; exact hj)
+
+/-- `set_version` and `set_deleted` share one 32-bit word (version : 31, deleted : 1); each sets its part
+    and keeps the other -/
+theorem set_version_deleted_share_a_word (p : Pend) (o ver : Nat) (d : Bool) (h : o + 4 ≤ p.length)
+    (hver : ver < 2 ^ 31) (hlt : u32At p o < 4294967296) :
+    (u32At (setLE p o (u32At p o % 2 + 2 * ver) 4) o / 2 = ver ∧
+     u32At (setLE p o (u32At p o % 2 + 2 * ver) 4) o % 2 = u32At p o % 2) ∧
+    (u32At (setLE p o (u32At p o / 2 * 2 + (if d then 1 else 0)) 4) o / 2 = u32At p o / 2 ∧
+     u32At (setLE p o (u32At p o / 2 * 2 + (if d then 1 else 0)) 4) o % 2 = (if d then 1 else 0)) :=
+  ⟨version_word p o ver h hver, deleted_word p o d h hlt⟩
+
+/-- non-vacuity: `set_id(-7)` on a freshly constructed node reads back as 2^64 - 7 in the 8 bytes at
+    offset 8 (what `OSMObject::id()` reinterprets as int64 -7) -/
+example :
+    let s := run (St.init 64 .no 64 .yes 190 true) [.open .node, .setField 8 8 (-7)]
+    s.dead = none ∧ leAt s.b0.pend 8 8 = 2 ^ 64 - 7 ∧ toSigned (leAt s.b0.pend 8 8) 64 = -7 := by decide +kernel
+
+open Osmium.HostileLayout in
+/-- built_content with field setters: any sequence `fops` of field setters inside the fixed part
+    (`fieldsRun` = their effect on the fixed bytes, starting from what the constructor leaves) between
+    the constructor and `set_user` changes the fixed part of the object and NOTHING else: the committed
+    bytes are `build` of the description with that fixed part, hence (under `Guards`) well-formed and
+    decoded to the same kind / user name / blocks.  Any capacity, both auto-grow modes. -/
+theorem built_content_with_fields (o : ObjS) (fops : List Op) (pre : Bytes) (fill : UInt8)
+    (hfo : fieldsRun (preOf o.kind.bufKind) fops = some pre) (hf : o.fixed = fixedOf o.kind pre)
+    (g : Guards fill o) (c c1 : Nat) (m m1 : Mode) (hm : m ≠ .no) :
+    let s := run (St.init c m c1 m1 fill true) (scriptWith fops o)
+    s.dead = none ∧ s.b0.pend = [] ∧ s.b0.done = build fill o ∧ Layout.WF s.b0.done = true ∧
+    ∃ fields, view s.b0 = .ok [.mk o.kind.ty false fields [o.user] (o.subs.map subTree)] := by
+  intro s
+  have h := run_script_with (St.init c m c1 m1 fill true) ⟨hm, rfl, ⟨bounds_mk _ _ _, bounds_mk _ _ _⟩⟩ rfl rfl rfl rfl
+    o fops pre hfo hf (subOK_of_guards g)
+  obtain ⟨h1, _, h3, h4⟩ := h
+  have h4' : s.b0.done = build fill o := by
+    show (run (St.init c m c1 m1 fill true) (scriptWith fops o)).b0.done = _
+    rw [h4]; simp [St.init, Buf.mk', Buf.done, Buf.comm]
+  obtain ⟨fields, hd⟩ := decodeAll_build fill o g
+  refine ⟨h1, h3, h4', ?_, fields, ?_⟩
+  · rw [h4']
+    unfold Layout.WF
+    rw [hd]
+    simpa using build_length_mod fill o g
+  · unfold view
+    show decodeAll s.b0.done = _
+    rw [h4']; exact hd
+
+open Osmium.HostileLayout in
+/-- non-vacuity: a node with `set_id(-7)`, `set_uid(1000)` (offset 24), a user name and a tag -/
+example :
+    let fops := [Op.setField 8 8 (-7), Op.setField 24 4 1000]
+    let pre := (fieldsRun (preOf .node) fops).getD []
+    let o : ObjS := { kind := .node, fixed := fixedOf .node pre, user := [97, 98], subs := [.tags [([107], [118])]] }
+    fieldsRun (preOf o.kind.bufKind) fops = some pre ∧ Guards 190 o ∧
+    (run (St.init 64 .yes 64 .yes 190 true) (scriptWith fops o)).b0.done = build 190 o := by decide +kernel
+
 /-! ### capacity_independent — the central theorem -/
 
 /-- Same script (builder calls, commit, rollback, add_buffer, push_back, move), ANY two initial
     capacities, ANY two of the grow modes yes/internal: unless a run hits an undefined-behaviour
-    outcome (stale pointer — finding F4 —, null m_comment, misaligned builder start), both runs
+    outcome (stale pointer — the original code only, finding F4 —, null m_comment, misaligned builder start), both runs
     end with byte-identical committed data (nested buffers oldest first) and byte-identical
     uncommitted data.  Where and how often the memory was reallocated or chained is unobservable. -/
 theorem capacity_independent_bytes (ops : List Op) (hg : ∀ op ∈ ops, GrowOp op = true)
@@ -82,10 +387,10 @@ example :
     (run (St.init 4096 .yes 64 .yes 190 false) ops).dead = none ∧
     (run (St.init 64 .internal 64 .yes 190 false) ops).b0.done.length = 72 := by decide
 
-/-! ### no_stale_pointer — FAILS for the current code (finding F4) -/
+/-! ### no_stale_pointer — fails for the ORIGINAL builder code (finding F4, repaired in /repo d30efa2), holds for the current one -/
 
 /-- The full statement: no script ever dereferences a pointer into memory that has been
-    reallocated since the pointer was taken.  (`fixF4 = false`: the current code.) -/
+    reallocated since the pointer was taken.  (`fix = false`: the original code, `true`: the current code.) -/
 def NoStalePointer (fix : Bool) : Prop :=
   ∀ (ops : List Op) (c0 c1 : Nat) (m0 m1 : Mode) (fill : UInt8),
     (run (St.init c0 m0 c1 m1 fill fix) ops).dead ≠ some .stale
@@ -107,14 +412,14 @@ theorem f4_witness_fine_at_large_capacity :
 theorem f4_witness_fine_when_fixed :
     (run (St.init 64 .yes 64 .yes 190 true) f4Witness).dead = none := by decide +kernel
 
-/-- The full statement HOLDS for the repaired variant (m_comment kept as an offset, see
-    .build/proposed_fixes/C04-discussion-comment-stale-pointer.diff): all scripts, capacities, modes. -/
+/-- The full statement HOLDS for the current code (m_comment kept as an offset): all scripts,
+    capacities, modes. -/
 theorem no_stale_pointer_fixed : NoStalePointer true := by
   intro ops c0 c1 m0 m1 fill
   exact (run_fixOk ops _ ⟨rfl, by simp [St.init]⟩).2
 
-/-- consequently the hypothesis "no undefined-behaviour outcome" of `capacity_independent` cannot be
-    dropped for the current code: the outcome of `f4Witness` depends on the capacity. -/
+/-- consequently the hypothesis "no undefined-behaviour outcome" of `capacity_independent` could not be
+    dropped for the original code: the outcome of `f4Witness` depended on the capacity. -/
 theorem capacity_dependent_today :
     (run (St.init 64 .yes 64 .yes 190 false) f4Witness).dead ≠ (run (St.init 4096 .yes 64 .yes 190 false) f4Witness).dead := by
   decide +kernel
